@@ -59,11 +59,19 @@ Fixpoint drop_underscores (prev_digit : bool) (s : pystr) : option pystr :=
       else if is_digit c then option_map (cons c) (drop_underscores true r)
       else None
   end.
+(* int() does NOT strip what str.strip() strips: CPython (unicodeobject.c _PyUnicode_TransformDecimalAndSpaceToASCII,
+   then longobject.c PyLong_FromString) maps every NON-ASCII str.isspace() character to a blank and then skips only the
+   C-locale blanks \t \n \v \f \r and ' ' at both ends; the ASCII separators U+001C..U+001F are str.isspace() but
+   are not skipped: int("\x1c3") raises ValueError while "\x1c3".strip() == "3". *)
+Definition is_int_space (c : N) : bool := is_space c && negb ((28 <=? c) && (c <=? 31)).
+Fixpoint lstrip_int (s : pystr) : pystr :=
+  match s with c :: r => if is_int_space c then lstrip_int r else s | [] => [] end.
+Definition strip_int (s : pystr) : pystr := List.rev (lstrip_int (List.rev (lstrip_int s))).
 Definition py_int (s : pystr) : res Z :=
   if existsb (fun c => 127 <? c) s then
     (if forallb (fun c => is_space c || (c <? 128)) s then
-       (* only non-ASCII white space: handled by strip below *)
-       let t := strip s in
+       (* only non-ASCII white space: handled by strip_int below *)
+       let t := strip_int s in
        let '(neg, body) := match t with 45 :: r => (true, r) | 43 :: r => (false, r) | _ => (false, t) end in
        match drop_underscores false body with
        | Some ds => match nat_of_digits ds with
@@ -73,7 +81,7 @@ Definition py_int (s : pystr) : res Z :=
        end
      else Unmodelled)
   else
-    let t := strip s in
+    let t := strip_int s in
     let '(neg, body) := match t with 45 :: r => (true, r) | 43 :: r => (false, r) | _ => (false, t) end in
     match drop_underscores false body with
     | Some ds => match nat_of_digits ds with
@@ -172,6 +180,9 @@ Proof.
   end.
 Qed.
 
+Lemma digit_not_int_space d : is_digit d = true -> is_int_space d = false.
+Proof. intros H. unfold is_int_space. now rewrite (digit_not_space d H). Qed.
+
 Lemma drop_underscores_digits s : s <> [] -> forallb is_digit s = true -> drop_underscores false s = Some s.
 Proof.
   assert (G : forall s b, forallb is_digit s = true -> (s <> [] \/ b = true) -> drop_underscores b s = Some s).
@@ -193,16 +204,16 @@ Proof.
     rewrite forallb_forall in Hd. apply Hd in Hin. unfold is_digit in Hin.
     apply andb_true_iff in Hin as [_ B]. apply N.leb_le in B. apply N.ltb_lt in Hc. lia. }
   rewrite Hascii.
-  assert (Hstrip : strip (str_of_nat n) = str_of_nat n).
-  { unfold strip. destruct (str_of_nat n) as [|c r] eqn:E; [congruence|].
+  assert (Hstrip : strip_int (str_of_nat n) = str_of_nat n).
+  { unfold strip_int. destruct (str_of_nat n) as [|c r] eqn:E; [congruence|].
     cbn in Hd. apply andb_true_iff in Hd as [Hc Hr].
-    cbn [lstrip]. rewrite (digit_not_space c Hc).
+    cbn [lstrip_int]. rewrite (digit_not_int_space c Hc).
     destruct (List.rev (c :: r)) as [|x xs] eqn:Er.
     { apply (f_equal (@length N)) in Er. rewrite rev_length in Er. cbn in Er. lia. }
     assert (Hx : is_digit x = true).
     { assert (In x (c :: r)) as Hin by (apply in_rev; rewrite Er; now left).
       destruct Hin as [<-|Hin]; [exact Hc|]. rewrite forallb_forall in Hr. now apply Hr. }
-    cbn [lstrip]. rewrite (digit_not_space x Hx). rewrite <- Er. apply rev_involutive. }
+    cbn [lstrip_int]. rewrite (digit_not_int_space x Hx). rewrite <- Er. apply rev_involutive. }
   rewrite Hstrip.
   destruct (str_of_nat n) as [|c r] eqn:E; [congruence|].
   assert (c <> 45 /\ c <> 43) as [H45 H43].
